@@ -130,7 +130,9 @@ def run(ctx):
     seg_paths = []
     streams = [M['update_ok'] + M['keepalive'] + M['keepalive'],
                M['keepalive'] + M['update_ok'] + M['route_refresh'] + M['keepalive'] + M['update_bad'] + M['keepalive'],
-               M['route_refresh'] + M['update_ok'] + M['notif_cease']]
+               M['route_refresh'] + M['update_ok'] + M['notif_cease'],
+               # UPDATEs of other families (flow specification announce/withdraw, VPNv4, IPv6 unicast)
+               M['update_flow4'] + M['keepalive'] + M['update_vpnv4'] + M['update_flow4_wd'] + M['update_v6'] + M['route_refresh_cisco']]
     for stream in streams:
         cs = cuts_of(stream, ctx.rng, ctx.thorough)
         if not ctx.thorough:
